@@ -98,8 +98,9 @@ def run(ctx):
     res = lib.validate_parallel("Trace_OSMAPOSL", [c[0] for c in chunks], jobs=W, timeout=1500, heap="3g")
     ctx.notes.append("wall: build %.0fs, recording %.0fs, waiting for model checks %.0fs, trace validation %.0fs" % (t1 - t0, t2 - t1, t3 - t2, time.time() - t3))
     known_ids = {k["id"] for k in ctx.known}
-    seen = {"N": set(), "flags": set(), "prior": set(), "setup": set(), "mode": set(), "variant": set(), "kinds": set(), "changes": set()}
+    seen = {"N": set(), "flags": set(), "prior": set(), "setup": set(), "mode": set(), "variant": set(), "kinds": set(), "changes": set(), "scales": set()}
     nreuse = 0
+    nscale = 0
     tot = [0] * 7
     nobj = 0
     nsteps = 0
@@ -139,14 +140,17 @@ def run(ctx):
             elif e == "SetUp":
                 seen["setup"].add(rec["ok"])
                 ctx.evaluations += 1
-            elif e in ("Step", "Cont", "Resume", "Final") and inst is not None:
+            elif e in ("Step", "Cont", "Resume", "Final", "Scale") and inst is not None:
                 ctx.evaluations += 1
                 if e == "Step":
                     nsteps += 1
                 if e == "Resume":
                     seen["variant"].add(rec["variant"])
+                if e == "Scale":
+                    nscale += 1
+                    seen["scales"].add((rec["ki"], rec["kd"]))
                 ctx.nontrivial((inst["mode"], inst.get("change", ""), inst["N"], inst["additive"], inst["norm"], inst["uss"], inst["prior"], inst["mult"] if inst["prior"] else False,
-                                inst["iuf"] > 0, inst["iif"] > 0, e, rec.get("variant", -1)))
+                                inst["iuf"] > 0, inst["iif"] > 0, e, rec.get("variant", -1), rec.get("ki", 0), rec.get("kd", 0)))
         newbad = []
         for (ln, cls) in lib.unexplained(r):
             if cls == "domain":
@@ -165,7 +169,7 @@ def run(ctx):
                 len(newbad), ",".join(kinds), json.dumps({k: v for k, v in recs[first].items() if k not in ("bins", "rows", "cols", "a", "ef")})[:300]), rp)
     ctx.traces = nobj
     law, ll, cons, cont, dom, known, new = tot
-    ctx.extra.update({"objects": nobj, "reuse_histories": nreuse, "reuse_changes": sorted({c for (mo, c) in seen["changes"]}), "steps_recorded": nsteps, "steps_law_evaluated": law, "loglikelihood_clauses": ll,
+    ctx.extra.update({"objects": nobj, "reuse_histories": nreuse, "scaled_subiterations": nscale, "reuse_changes": sorted({c for (mo, c) in seen["changes"]}), "steps_recorded": nsteps, "steps_law_evaluated": law, "loglikelihood_clauses": ll,
                       "count_clauses": cons, "restart_images_compared_equal": cont, "steps_outside_arithmetic_domain": dom,
                       "lines_matching_known_finding": known})
     # ---- vacuity guards: the recorded executions must contain what the check claims to exercise
@@ -183,11 +187,13 @@ def run(ctx):
             problems.append("flags %s" % sorted(seen["flags"]))
         if not {(0, False), (1, False), (1, True), (2, False), (2, True)} <= seen["prior"]:
             problems.append("priors %s" % sorted(seen["prior"]))
-        if seen["setup"] != {True, False} or seen["mode"] != {"exact", "free"} or seen["variant"] != {0, 1, 2, 3, 4}:
+        if seen["setup"] != {True, False} or seen["mode"] != {"exact", "free"} or seen["variant"] != {0, 1, 2, 3, 4, 5}:
             problems.append("set-up verdicts / modes / restart variants %s %s %s" % (seen["setup"], seen["mode"], seen["variant"]))
         if len({c for (mo, c) in seen["changes"] if mo == "exact"}) < 9 or len({c for (mo, c) in seen["changes"] if mo == "free"}) < 8:
             problems.append("re-use histories %s" % sorted(seen["changes"]))
-        if not {"Step", "Start", "Final", "Resume", "Cont"} <= seen["kinds"]:
+        if len(seen["scales"]) < 8 or nscale < 100:
+            problems.append("scaled sub-iterations %d %s" % (nscale, sorted(seen["scales"])))
+        if not {"Step", "Start", "Final", "Resume", "Cont", "Scale"} <= seen["kinds"]:
             problems.append("kinds %s" % sorted(seen["kinds"]))
         # (the counts are of clauses that HELD; when lines were rejected the violations are the result, not the counts)
         if not ctx.violations and (law < 300 or ll < 20 or cons < 8 or cont < 300 or dom * 10 > nsteps):
